@@ -306,10 +306,18 @@ package spg
 //@   loop 3 invariant [C04] sfc:    (r.SeparatorFunc == nil ==> sfcalls == old(sfcalls)) &&
 //@        (r.SeparatorFunc != nil ==> sfcalls == old(sfcalls) + done(i) && forall(int(a), trig(K[a]), 0 <= a && a < done(i) ==> K[a] == old(sfcalls) + a))
 //@   loop 3 invariant [C05] toks:   forall(int(a), trig(P[a]), 0 <= a && a < i ==> P[a] >= 0 && P[a] < len(ts) && ts[P[a]].tType == AtomType && ts[P[a]].value == atom(a))
-//@   loop 3 invariant [C05] gaps:   forall(int(a), int(b), trig(P[a], P[b]), 0 <= a && a < i && a < r.Length-1 && b == a+1 ==>
-//@        (sepOf(a) == "" && P[b] == P[a]+1) ||
-//@        (sepOf(a) != "" && P[b] == P[a]+2 && P[a]+1 < len(ts) && ts[P[a]+1].tType == SeparatorType && ts[P[a]+1].value == sepOf(a)))
+//@   loop 3 invariant [C05] gaps-none: forall(int(a), int(b), trig(P[a], P[b]), 0 <= a && a < i && a < r.Length-1 && b == a+1 && sepOf(a) == "" ==> P[b] == P[a]+1)
+//@   loop 3 invariant [C05] gaps-one:  forall(int(a), int(b), trig(P[a], P[b]), 0 <= a && a < i && a < r.Length-1 && b == a+1 && sepOf(a) != "" ==>
+//@        P[b] == P[a]+2 && P[a]+1 < len(ts) && ts[P[a]+1].tType == SeparatorType && ts[P[a]+1].value == sepOf(a))
 //@   loop 3 invariant [C05] last:   i == r.Length && i > 0 ==> P[i] == P[i-1] + 1
 //@   loop 3 ghost CW[i] = ctr
 //@   loop 3 ghost K[i] = sfcalls
 //@   loop 3 ghost P[i] = len(ts)
+
+//@ func (Tokens).ofType
+//@   ensures [C05] count:  len(res) == tcount(arr(ts), off(ts), len(ts), tType)
+//@   ensures [C05] values: forall(int(k), trig(res[k]), 0 <= k && k < len(res) ==> res[k] == tfilt(arr(ts), off(ts), len(ts), tType)[k])
+//@   ensures [C05,C15] fresh: len(res) == 0 || fresh(res)
+//@   loop 1 invariant [C05] count:  len(ret) == tcount(arr(ts), off(ts), it, tType) && len(ret) >= 0
+//@   loop 1 invariant [C05] values: forall(int(k), trig(ret[k]), 0 <= k && k < len(ret) ==> ret[k] == tfilt(arr(ts), off(ts), it, tType)[k])
+//@   loop 1 invariant [C05] fresh:  arrid(ret) > old(alloc)
